@@ -355,22 +355,43 @@ def run_file(case, env):
               "outside": "C25/file-log-outside-ancestry",
               "mainline": "C25/file-log-all-levels-mainline-part",
               "misses": "C25/file-log-misses-a-revision-that-changed-the-file"}
+    def converged(f, want):
+        """Mainline revisions that leave the file as it is in the left-hand
+        parent but carry another per-file version of it (a merge brought in, or
+        recorded, a per-file version with the same text).  Per-file-graph
+        matching lists them, tree comparison does not: open finding, reported
+        under its own signature after the strict checks."""
+        out = []
+        for i, r in enumerate(lh):
+            if r in want or not i or not ts[r][f]:
+                continue
+            vers = [br.repository.revision_tree(bz.enc(x)).get_file_revision(f)
+                    for x in (r, lh[i - 1])]
+            if vers[0] != vers[1]:
+                out.append(r)
+        return out
+
+    conv_seen = []
     with br.lock_read():
         present = [f for f in FILES if ts[tip][f]]
         for f in present:
             want = wanted(f)
+            conv = converged(f, want)
+            want_graph = [r for r in lh if r in want or r in conv]
             got = {}
             for deltas in (True, False):
                 got[deltas] = [x[0] for x in loglist(
                     br, levels=1, direction="reverse", specific_files=[f],
                     _match_using_deltas=deltas)]
-            check(got[True] == got[False],
-                  "C25/file-log-mainline-differs-between-matching-modes",
-                  [tip, f, got[True], got[False], want])
             check(got[True] == want[::-1],
                   "C25/file-log-mainline-not-the-changes",
                   [tip, f, got[True], want])
-            all_levels(f, False, want, strict)
+            check(got[False] == want_graph[::-1],
+                  "C25/file-log-mainline-differs-between-matching-modes",
+                  [tip, f, got[True], got[False], want, conv])
+            all_levels(f, False, want_graph, strict)
+            if conv:
+                conv_seen.append([tip, f, got[True], got[False], conv])
             if any(len(g[r]) > 1 for r in want):
                 label = "file-change-arrives-through-merge"
             elif label is None and any(len(g[r]) > 1 for r in lh):
@@ -378,6 +399,9 @@ def run_file(case, env):
         # Request classes with open findings: one class per case (case["fwd"])
         # so that one finding does not hide another, and after all strict
         # checks so that they hide nothing else.
+        check(not conv_seen,
+              "C25/file-log-per-file-graph-lists-merge-of-equal-texts",
+              conv_seen)
         for f in present:
             want = wanted(f)
             if mode in (1, 2):
